@@ -623,6 +623,8 @@ impl World {
             for (scope, rules) in self.rules.inner.iter() {
                 let it = self.facts.iterator(scope);
                 for (origin, rule) in rules {
+                    #[cfg(biscuit_auth_verif)]
+                    crate::verif::work(crate::verif::Site::RuleApplication);
                     for res in rule.apply(it.clone(), *origin, symbols, &self.extern_funcs) {
                         match res {
                             Ok((origin, fact)) => {
@@ -755,14 +757,24 @@ impl std::default::Default for RunLimits {
 
 #[derive(Clone, Debug, Default)]
 pub struct FactSet {
+    #[cfg(not(biscuit_auth_verif))]
     pub(crate) inner: HashMap<Origin, HashSet<Fact>>,
+    #[cfg(biscuit_auth_verif)]
+    pub(crate) inner: HashMap<
+        Origin,
+        HashSet<Fact, crate::verif::SeededState>,
+        crate::verif::SeededState,
+    >,
 }
 
 impl FactSet {
     pub fn insert(&mut self, origin: &Origin, fact: Fact) {
         match self.inner.get_mut(origin) {
             None => {
+                #[cfg(not(biscuit_auth_verif))]
                 let mut set = HashSet::new();
+                #[cfg(biscuit_auth_verif)]
+                let mut set = HashSet::default();
                 set.insert(fact);
                 self.inner.insert(origin.clone(), set);
             }
@@ -835,7 +847,10 @@ impl IntoIterator for FactSet {
 
 #[derive(Clone, Debug, Default)]
 pub struct RuleSet {
+    #[cfg(not(biscuit_auth_verif))]
     pub inner: HashMap<TrustedOrigins, Vec<(usize, Rule)>>,
+    #[cfg(biscuit_auth_verif)]
+    pub inner: HashMap<TrustedOrigins, Vec<(usize, Rule)>, crate::verif::SeededState>,
 }
 
 impl RuleSet {
